@@ -107,12 +107,19 @@ func newInst(cfg config, worker int) *inst {
 }
 
 func (in *inst) open() {
+	if err := in.tryOpen(); err != nil {
+		panic(fmt.Sprintf("open failed: %v", err))
+	}
+}
+
+func (in *inst) tryOpen() error {
 	w, err := wal.VerifNewWal("ns", 1, &wal.FactoryOptions{BaseWalDir: in.dir, Retention: retentionMs * time.Millisecond,
 		SegmentSize: in.cfg.segSize, SyncData: in.cfg.syncData}, in.commit, in.clock, time.Hour)
 	if err != nil {
-		panic(fmt.Sprintf("open failed: %v", err))
+		return err
 	}
 	in.w = w
+	return nil
 }
 
 func (in *inst) Close() {
@@ -263,7 +270,10 @@ func (in *inst) Step(op int) (bool, *ev.Violation) {
 			return true, viol("close-failed", err.Error())
 		}
 		in.w = nil
-		in.open()
+		if err := in.tryOpen(); err != nil {
+			// nothing but a clean close happened: the log must open again
+			return true, viol("reopen-failed", fmt.Sprintf("the log does not open after a clean close: %v", err))
+		}
 		// a clean close keeps everything that was appended
 		in.synced = in.appended()
 		// entries below the logical first offset whose segment still exists may re-appear
@@ -511,10 +521,12 @@ func main() {
 		budget = 25 * time.Minute
 		cfgs = append(cfgs, config{name: "seg=1big,sync", segSize: int32(rb + 3), small: small, big: big, syncData: true})
 	}
-	// non-initial states: a log of 8 one-record segments (more read-only segments than the segment cache
-	// holds), and a log of large records in one big segment (a truncation removes more than 64 KiB)
+	// non-initial states: a log of 10 one-record segments (more read-only segments than the segment cache
+	// holds; the next rollover creates the first segment whose base offset has two digits, so the order of
+	// the segment files by name and by offset differ), and a log of large records in one big segment (a
+	// truncation removes more than 64 KiB)
 	cfgs = append(cfgs,
-		config{name: "seg=1big,sync,preloaded8", segSize: int32(rb + 3), small: small, big: big, syncData: true, preload: 8, preloadBig: true, depth: 3, maxOff: 11},
+		config{name: "seg=1big,sync,preloaded10", segSize: int32(rb + 3), small: small, big: big, syncData: true, preload: 10, preloadBig: true, depth: 3, maxOff: 13},
 		config{name: "seg=512KiB,records=40KiB,nosync,preloaded6", segSize: 512 * 1024, small: 40 * 1024, big: 40 * 1024, syncData: false, preload: 6, depth: 4, maxOff: 8,
 			only: map[int]bool{opAppS: true, opAsyS: true, opSync: true, opTrunc1: true, opTrunc2: true, opTrunc3: true, opReopen: true}})
 	if d := os.Getenv("VERIF_DEPTH"); d != "" {
